@@ -130,7 +130,7 @@ def run(ctx):
     if not total or any(v == 0 for v in counts.values()):
         raise lib.Inconclusive("TLC produced no behaviours in %s" % counts)
 
-    env = {"VERIF_IN": inp}
+    env = {"VERIF_IN": inp, "GOGC": "400"}  # allocation-heavy (httptest), small live heap
     env.update(tmp_env())
     res = go_usermanager(ctx, env)
     lib.collect_go(ctx, res)
